@@ -292,6 +292,7 @@ class Script:
         self.robots_replies = robots_replies      # None: /robots.txt is an ordinary page
         self.rlog = []         # requests for /robots.txt when robots_replies is given
         self.on_request = None  # callback(k, head) when the k-th page request has arrived, before it is answered
+        self.by_path = None     # a small site instead of the index script: request path -> reply (404 for anything else)
         self.conns = []        # per entry of log: the connection object the request came in on (bytes consumed by the client)
         self.feeders = []      # tasks of the never-ending response heads
         self.tunnels = []      # per entry of log: the CONNECT target of the connection the request came in on, or None
@@ -358,8 +359,11 @@ class ScriptServer:
                 replies = self.script.replies
                 if self.script.on_request:
                     self.script.on_request(k, self.head)
+            path = self.head.split(b' ')[1].split(b'?')[0].decode('latin-1') if self.head.split(b' ')[1:2] else ''
             self.head = None
             rep = replies[k] if k < len(replies) else {'status': 200, 'mode': 'resp'}
+            if self.script.by_path is not None and replies is self.script.replies:
+                rep = self.script.by_path.get(path, {'status': 404, 'mode': 'resp'})
             mode = rep.get('mode', 'resp')
             if mode == 'close':
                 conn.close()
@@ -708,7 +712,7 @@ def model_replies(log, replies, loads_iter):
 
 def run_crawl(url, replies, tries, max_redirects, login=None, timeout=20, robots=None, cap=None, host_fail=None, retry=None,
               extra_argv=(), recursive=False, on_request=None, on_event=None, tls_passthrough=False, req_cap=None,
-              more_urls=(), concurrency=1):
+              more_urls=(), concurrency=1, by_path=None, hooks=None):
     """Builder(args).build().run() of the REAL application (pipeline, URL table, processor, rules,
     filters, web client) against the scripted servers.  Returns the visits of `url` as seen at the
     URL table: [(requests issued during the visit, status after, try_count after)], plus the
@@ -722,6 +726,7 @@ def run_crawl(url, replies, tries, max_redirects, login=None, timeout=20, robots
     from wpull.protocol.http.redirect import RedirectTracker
 
     script = Script(replies, robots_replies=(robots['replies'] if robots else None))
+    script.by_path = by_path
     loads = []
 
     class EventList(list):
@@ -839,6 +844,19 @@ def run_crawl(url, replies, tries, max_redirects, login=None, timeout=20, robots
             b.factory.class_map['URLTable'] = LogTable
             b.factory.class_map['RedirectTracker'] = LogTracker
             b.factory.class_map['FetchRule'] = LogFetchRule
+            if hooks:
+                # scripting hooks connected the way a plugin connects them: {hook name: action name}
+                from wpull.processor.rule import ResultRule
+                from wpull.application.hook import Actions
+                from wpull.application.plugin import PluginFunctions
+
+                class HookedResultRule(ResultRule):
+                    def __init__(self, *a, **k):
+                        super().__init__(*a, **k)
+                        for hname, action in hooks.items():
+                            self.hook_dispatcher.connect(getattr(PluginFunctions, hname),
+                                                         (lambda *args, _a=action: getattr(Actions, _a)))
+                b.factory.class_map['ResultRule'] = HookedResultRule
             app = b.build()
             if concurrency != 1:
                 # `--concurrent` is parsed but never applied in this tree: the workers are set on the pipeline series
